@@ -54,6 +54,22 @@ func TestFarm(t *testing.T) {
 			br := w.R[0].RunBlock(tmpl)
 			_ = w.C.Advance(br.AppHash, br.Updates)
 		}
+		// message calls to the prefix's contracts: all are committed as executed (code 0), also the
+		// ones that fail inside the EVM
+		for _, which := range []string{"store", "revert", "loop"} {
+			tmpl := w.C.MakeBlock(sim.BlockSpec{GapSecs: 5})
+			tx := f.MakeOLVMCall(which, 0, 7)
+			ck := w.R[0].CheckTx(tx.Bytes)
+			b := *tmpl
+			b.Txs = [][]byte{tx.Bytes}
+			res := w.R[0].SpecBlock(&b)
+			fmt.Fprintf(out, "OLVM call %-8s check=%d deliver=%d gas=%d %.100s\n", which, ck.Code, res.Txs[0].Code, res.Txs[0].GasUsed, res.Txs[0].Log)
+			if ck.Code != 0 || res.Txs[0].Code != 0 {
+				t.Errorf("OLVM call %s not accepted: check=%d deliver=%d %s", which, ck.Code, res.Txs[0].Code, res.Txs[0].Log)
+			}
+			br := w.R[0].RunBlock(tmpl)
+			_ = w.C.Advance(br.AppHash, br.Updates)
+		}
 		w.Close()
 	}
 }
